@@ -131,3 +131,93 @@ Theorem fill_without_clear_refuted : exists fl rows, NoDup rows /\ f_ok (fst (co
 Proof.
   exists (Some (1, FAddRaw)), [10; 20]%Z. split; [repeat constructor; simpl; intuition discriminate|]. vm_compute. reflexivity.
 Qed.
+
+(* ================================================================ the DUMPED pvFill (Gen_Protocol.T_pvFill) is `fill true`
+   The statement tree of DataTable::pvFill is executed on the memory model above: per source row (the rows that pass the
+   filter) the body statements in their dumped order - mRaws.Reserve [fallible], pvImportRaw [fallible, allocates],
+   try { mIndexes.AddRaw } catch { pvDestroyRaw; throw }, mRaws.AddBackNogrow - and on an exception the dumped outer handler.
+   The initial `Reserve(rows.GetCount())` of the unfiltered copy is outside the try block (nothing to undo) and not modelled. *)
+From Coq Require Import String.
+From C07 Require Import ProtoSyntax.
+From C07 Require Gen_Protocol.
+Local Open Scope string_scope.
+
+Inductive fctl := KGo | KThrow | KBad.
+
+(* catch-block statements *)
+Fixpoint hstmts (b : list pstmt) (raw : string) (r : Z) (st : fstate) : fstate * fctl :=
+  match b with
+  | [] => (st, KGo)
+  | s :: b' =>
+      match s with
+      | SThrow => (st, KThrow)
+      | SExpr (ECall ENone f []) => if f =? "pvDestroyRaws" then hstmts b' raw r (destroy_raws st) else (st, KBad)
+      | SExpr (ECall ENone f [EVar x]) => if (f =? "pvDestroyRaw") && (x =? raw) then hstmts b' raw r (destroy_raw r st) else (st, KBad)
+      | SExpr (ECall (EVar o) f []) => if (o =? "mRaws") && (f =? "Clear") then hstmts b' raw r (mkF (f_live st) [] (f_ok st)) else (st, KBad)
+      | _ => (st, KBad)
+      end
+  end.
+
+(* loop-body statements for the source row whose copy gets address r *)
+Fixpoint bstmts (fl : fsched) (i : nat) (b : list pstmt) (raw : string) (r : Z) (st : fstate) : fstate * fctl :=
+  match b with
+  | [] => (st, KGo)
+  | s :: b' =>
+      match s with
+      | SIf (EUn op (ECall (EVar rf) call [EVar _])) [SContinue] [] =>       (* if (!rowFilter(rowRef)) continue; - r passes *)
+          if (op =? "!") && (rf =? "rowFilter") && (call =? "()") then bstmts fl i b' raw r st else (st, KBad)
+      | SExpr (ECall (EVar o) f args) =>
+          if (o =? "mRaws") && (f =? "Reserve") then (if fhits fl i FReserve then (st, KThrow) else bstmts fl i b' raw r st)
+          else if (o =? "mRaws") && (f =? "AddBackNogrow") then
+            match args with
+            | [EVar x] => if x =? raw then bstmts fl i b' raw r (mkF (f_live st) (f_raws st ++ [r]) (f_ok st)) else (st, KBad)
+            | _ => (st, KBad)
+            end
+          else (st, KBad)
+      | SDecl x (ECall ENone f _) =>
+          if (f =? "pvImportRaw") && (x =? raw) then
+            if fhits fl i FImport then (st, KThrow) else bstmts fl i b' raw r (mkF (f_live st ++ [r]) (f_raws st) (f_ok st))
+          else (st, KBad)
+      | STry [SExpr (ECall (EVar o) f [EVar x])] h =>
+          if (o =? "mIndexes") && (f =? "AddRaw") && (x =? raw) then
+            if fhits fl i FAddRaw then hstmts h raw r st else bstmts fl i b' raw r st
+          else (st, KBad)
+      | _ => (st, KBad)
+      end
+  end.
+
+Fixpoint fill_loop (fl : fsched) (body handler : list pstmt) (rows : list Z) (i : nat) (st : fstate) : fstate * bool :=
+  match rows with
+  | [] => (st, false)
+  | r :: rows' =>
+      match bstmts fl i body "raw" r st with
+      | (st', KGo) => fill_loop fl body handler rows' (S i) st'
+      | (st', _) => (fst (hstmts handler "raw" 0%Z st'), true)
+      end
+  end.
+
+Definition fill_tree (p : list pstmt) (fl : fsched) (rows : list Z) (st : fstate) : option (fstate * bool) :=
+  match p with
+  | [SDecl _ _; SIf _ [SExpr (ECall ENone rs [_])] []; STry [SFor _ (EVar rw) body] handler; SExpr (ECall ENone sn [])] =>
+      if (rs =? "Reserve") && (rw =? "rows") && (sn =? "pvSetNumbers") then Some (fill_loop fl body handler rows 0 st) else None
+  | _ => None
+  end.
+
+Lemma fill_loop_is_fill fl body handler :
+  body = match Gen_Protocol.T_pvFill with [_; _; STry [SFor _ _ b] _; _] => b | _ => [] end ->
+  handler = match Gen_Protocol.T_pvFill with [_; _; STry _ h; _] => h | _ => [] end ->
+  forall rows i st, fill_loop fl body handler rows i st = fill true fl rows i st.
+Proof.
+  intros -> ->. induction rows as [|r rows IH]; intros i st; [reflexivity|].
+  cbn [fill_loop fill]. unfold Gen_Protocol.T_pvFill.
+  cbv -[fhits destroy_raw destroy_raws fill_loop fill app f_live f_raws f_ok].
+  destruct (fhits fl i FReserve); [reflexivity|]. destruct (fhits fl i FImport); [reflexivity|].
+  destruct (fhits fl i FAddRaw); [reflexivity|]. apply IH.
+Qed.
+
+(* DataTable::pvFill as it is in the source = the model `fill true` (with mRaws.Clear() in the handler) *)
+Theorem generated_pvFill fl rows st :
+  fill_tree Gen_Protocol.T_pvFill fl rows st = Some (fill true fl rows 0 st).
+Proof.
+  unfold fill_tree. rewrite <- (fill_loop_is_fill fl _ _ eq_refl eq_refl rows 0 st). reflexivity.
+Qed.
